@@ -279,7 +279,7 @@ func Check() *common.Check {
 		Level:     "exploration",
 		CrashSafe: true,
 		Rule: "scripts S1;...;Sn: all sequences of n<=2 over the full pool (9 valid statements - one per kind plus DESCRIBE / SHOW / REPLACE, which do not start with a recovery synchronisation keyword - and every failing corruption of them: first / second / last token deleted, middle token duplicated or replaced, truncated after 2, 3, 4 tokens and at half, none containing a statement-starting keyword after its first token), n<=3 over the valid statements and an even spread of 14 corruptions " +
-			"and n<=5 (quick) / n<=6 (thorough) over 2 valid + 3 corrupt, each with and without a trailing semicolon; every rejected proper prefix (up to the first inner statement-starting keyword) of every clause-option, DML and DDL statement of the sqlgen space, followed by SHOW TABLES / a SELECT / a malformed non-keyword segment, and between two neighbours; plus all lexeme sequences of length <=3 (quick) / <=4 (thorough) over a 24-lexeme alphabet for termination and the iff clause. " +
+			"and n<=5 (quick) / n<=6 (thorough) over 2 valid + 3 corrupt, each with and without a trailing semicolon; every rejected proper prefix (up to the first inner statement-starting keyword) of every clause-option, DML and DDL statement of the sqlgen space, followed by SHOW TABLES / a SELECT / a malformed non-keyword segment, and between two neighbours; every single-token deletion / duplication / replacement inside every representative expression of sqlgen (in WHERE and in the select list) before a follower and between two neighbours; plus all lexeme sequences of length <=3 (quick) / <=4 (thorough) over a 24-lexeme alphabet for termination and the iff clause. " +
 			"distinct = distinct script text; non-trivial = script mixes well-formed and malformed segments",
 		Assume: []string{"a segment is well-formed iff gosqlx.Parse accepts it alone", "parser-token count of a segment = number of generator lexemes; verified at run time on the accepted statement each segment was cut from, and where it does not hold (keyword pairs the tokenizer merges) the token-index clause is replaced by the reported-column clause alone"},
 		Enumerate: func(e *common.Enum) {
@@ -373,6 +373,42 @@ func Check() *common.Check {
 			sqlgen.ClauseOptions(prefixes)
 			sqlgen.DMLCases(prefixes)
 			sqlgen.DDLCases(prefixes)
+			// every single-token deletion / duplication / replacement inside every representative expression (CASE, casts,
+			// calls with their clauses, sub-queries are excluded by the keyword rule ...), in a WHERE clause and in the select
+			// list: expression-level keywords (END, ELSE, WHEN, AS ...) must not be taken for statement boundaries
+			seenCorrupt := map[string]bool{}
+			corruptExpr := func(name string, st sqlgen.S) {
+				for _, t := range st.Toks[1:] {
+					if stmtStart[strings.ToUpper(t.S)] {
+						return
+					}
+				}
+				whole := mkseg("expr:"+name, st.Toks)
+				if !whole.ok {
+					return
+				}
+				n := len(st.Toks)
+				for k := 1; k < n; k++ {
+					del := append(append([]sqlgen.Tok{}, st.Toks[:k]...), st.Toks[k+1:]...)
+					dup := append(append(append([]sqlgen.Tok{}, st.Toks[:k+1]...), st.Toks[k]), st.Toks[k+1:]...)
+					rep := append(append(append([]sqlgen.Tok{}, st.Toks[:k]...), sqlgen.Tok{S: ")"}), st.Toks[k+1:]...)
+					for ci, toks := range [][]sqlgen.Tok{del, dup, rep} {
+						cs := mksegFrom(fmt.Sprintf("%s-in-expr:%s", []string{"delete", "duplicate", "replace"}[ci], name), toks, st.Toks)
+						if cs.ok || seenCorrupt[cs.sql] || len(followers) == 0 {
+							continue
+						}
+						seenCorrupt[cs.sql] = true
+						p1 := []seg{cs, followers[0]}
+						e.Do("exprcorrupt|"+cs.sql, func(c *common.Ctx) { checkScript(c, p1, false) })
+						p2 := []seg{whole, cs, followers[0]}
+						e.Do("exprcorrupt-mid|"+cs.sql, func(c *common.Ctx) { checkScript(c, p2, true) })
+					}
+				}
+			}
+			sqlgen.RepExprs(func(name string, x sqlgen.X) {
+				corruptExpr("where:"+name, sqlgen.Sel{Items: []sqlgen.SelItem{{X: sqlgen.Col("c0")}}, From: []sqlgen.TableRef{{Name: "t0"}}, Where: &x}.Build())
+				corruptExpr("item:"+name, sqlgen.Sel{Items: []sqlgen.SelItem{{X: x}, {X: sqlgen.Col("c0")}}, From: []sqlgen.TableRef{{Name: "t0"}}}.Build())
+			})
 			// token soup: termination and the iff clause
 			alpha := []string{"SELECT", "FROM", "WHERE", "INSERT", "INTO", "VALUES", "UPDATE", "SET", "DELETE", "WITH", "AS", "(", ")", ",", ";", "*", "=", "a", "1", "'s'", "AND", "NOT", "JOIN", "CASE"}
 			K := 3
